@@ -30,6 +30,10 @@ class AttrError(ValueError):
     pass
 
 
+class CustomBase(BaseException):
+    pass
+
+
 def _log(kind, **kw):
     if hook is not None:
         hook.log_event(kind, **kw)
@@ -82,14 +86,22 @@ def _misbehave(phase, key):
             continue
         if b.get('worker') is not None and hook is not None and b['worker'] != hook.current_worker_id():
             continue
+        if b.get('if_file') and not os.path.exists(b['if_file']):
+            continue
         act = b['do']
-        if act == 'sleep':
+        if act == 'touch':
+            open(b['path'], 'w').close()
+        elif act == 'sleep':
             time.sleep(b['s'])
         elif act == 'block':
+            _log('blocking', phase=phase, key=key, s=b.get('s', 3600))
             time.sleep(b.get('s', 3600))
         elif act == 'die':
+            _log('dying', phase=phase, key=key)
+            time.sleep(b.get('quiesce', 0.3))        # let the queue feeder threads finish what they are sending
             os.kill(os.getpid(), signal.SIGKILL)
         elif act == 'raise':
+            _log('raised', phase=phase, exc=b.get('exc', 'ValueError'), key=key)
             raise make_exception(b.get('exc', 'ValueError'), key)
         elif act == 'busy':
             t0 = time.time()
@@ -120,6 +132,19 @@ def make_exception(name, key):
         e = ValueError('holds a lambda')
         e.fn = lambda: 1
         return e
+    if name == 'Cancelled':
+        import asyncio
+        return asyncio.CancelledError('cancelled', key)
+    if name == 'BaseExc':
+        return CustomBase('base', key)
+    if name == 'LocalClass':          # a class only dill can pickle (by value)
+        def mk():
+            class LocalError(Exception):
+                pass
+            return LocalError
+        return mk()('local', key)
+    if name == 'NestedArgs':
+        return ValueError({'k': [key, (1, 2)]}, 'x' * 50, key)
     raise RuntimeError('unknown exception spec ' + name)
 
 
@@ -174,6 +199,7 @@ class PhaseFail:
         layout = None if self.bits is None else [n for n, b in zip(('wid', 'shared', 'state'), self.bits) if b == '1']
         ex, targs = split_extras(args, layout)
         _log(self.phase, args=canon(targs), **_describe_extras(ex))
+        _log('raised', phase=self.phase, exc=self.exc, key=self.tag)
         raise make_exception(self.exc, self.tag)
 
 
